@@ -3,7 +3,9 @@
 (* real `backtest()` must be a behaviour of Backtest.                         *)
 (*                                                                            *)
 (* One file holds many runs, one after the other; every line has the fields   *)
-(*   a     "Reset" | "Market" | "Disc" | "Account" | "End"                    *)
+(*   a     "Reset" | "Market" | "Disc" | "Account" | "End" | "Fail" (the      *)
+(*         backtest returned the error of its failed data source; Reset.fail  *)
+(*         = [k]: the source was made to fail after k items)                  *)
 (*   id    dataset index carried by the market event the engine processed     *)
 (*   tag   data-source tag carried by the event (which stream it came from)   *)
 (*   kind  account event kind ("snapshot" | "order" | "balance" | "trade")    *)
@@ -40,10 +42,11 @@ Rec == ndJsonDeserialize(IOEnv.TRACE)
 VARIABLES l, bad, cur
 tvars == <<run, l, bad, cur>>
 
-TraceParams == (1 :> [n |-> 0, recs |-> {}, acts |-> {}, fatalAt |-> {}])
+TraceParams == (1 :> [n |-> 0, recs |-> {}, acts |-> {}, fatalAt |-> {}, srcFailAt |-> {}])
 
 SetOf(s) == {s[j] : j \in 1..Len(s)}
-POf(e)   == [n |-> e.n, recs |-> SetOf(e.recs), acts |-> SetOf(e.acts), fatalAt |-> {}]
+POf(e)   == [n |-> e.n, recs |-> SetOf(e.recs), acts |-> SetOf(e.acts), fatalAt |-> {},
+             srcFailAt |-> SetOf(e.fail)]
 R        == run[1]
 Put(r)   == run' = (1 :> r)
 
@@ -60,11 +63,13 @@ Fwd(r) == IF CanForward(r) THEN DoForward(r) ELSE r
 MarketCan(r)  == r.feed = <<>> /\ CanForward(r)
 AcctCan(r, x) == r.feed = <<>> /\ CanRespond(r, x)
 EndCan(r)     == r.feed = <<>> /\ CanSendShutdown(r)
+FailCan(r)    == r.feed = <<>> /\ CanSourceFail(r)
 
 PostOf(r, e) ==
     CASE e.a \in {"Market", "Disc"} -> IF MarketCan(r) THEN DoStep(DoForward(r)) ELSE r
       [] e.a = "Account" -> IF AcctCan(r, Acct(e.k, e.kind)) THEN DoStep(DoRespond(r, Acct(e.k, e.kind))) ELSE r
       [] e.a = "End"     -> IF EndCan(r) THEN DoEngineShutdown(DoStep(DoSendShutdown(r))) ELSE r
+      [] e.a = "Fail"    -> IF FailCan(r) THEN DoSourceFail(r) ELSE r
 
 \* The invariants of Backtest are evaluated on the implementation's states at every line that is
 \* not a plain market step and at every 100th line (they cost O(dataset) each; a market step is
@@ -102,9 +107,15 @@ EndFails(r, post, e) ==
   \cup (IF IsPrefix(e.sent, r.sent) /\ Len(r.sent) <= Len(e.sent) + 1 THEN {} ELSE {"orders-in-flight"})
   \cup (IF e.sumok THEN {} ELSE {"summary-not-from-own-engine"})
 
+\* the backtest returned the forwarder's error (no summary): the run's data source must have been
+\* made to fail, and exactly after the items the engine has seen
+FailFails(r, post, e) ==
+    IF FailCan(r) THEN Counts(post, e) \cup InvFails(post) ELSE {"error-not-at-the-source-failure"}
+
 Fails(r, post, e) == CASE e.a \in {"Market", "Disc"} -> MarketFails(r, post, e)
                        [] e.a = "Account"            -> AcctFails(r, post, e)
                        [] e.a = "End"                -> EndFails(r, post, e)
+                       [] e.a = "Fail"               -> FailFails(r, post, e)
 
 \* ---- re-synchronisation after a rejected line ---------------------------------------------
 Resync(r, e) ==
@@ -117,6 +128,7 @@ Resync(r, e) ==
       [] e.a = "Account" -> [r EXCEPT !.applied = Append(@, Acct(e.k, e.kind)),
                                       !.exch = @ \ {Acct(e.k, e.kind)}]
       [] e.a = "End"     -> [r EXCEPT !.phase = "done", !.feed = <<>>]
+      [] e.a = "Fail"    -> [r EXCEPT !.phase = "failed", !.feed = <<>>]
 
 TReset == /\ Rec[l].a = "Reset"
           /\ Put(InitRun(POf(Rec[l])))
